@@ -168,9 +168,12 @@ def run(case):
             vv = sorted(set(v for v, _, _ in O.walk_vectors(g, cap)))
             idx = [E.index(x) for x in rest]
             o2, _ = O.min_decomp([[v[i] for i in idx] for v in vv], [f[x] for x in rest], "int")
-            obs = _solve(c2, drivers.build_graph(c2), {"weight_type": "int", "elements_to_ignore": [list(e)]})
-            tags["ignore"] += 1
-            judge(f"MinFlowDecompCycles(int, ignore={e}/{treat})", obs, o2, ignored=[e], gcase=c2)
+            for oname, oo in (("default", {}), ("mingenset", {"use_min_gen_set_lowerbound": True}), ("guessed", {"optimize_with_guessed_weights": True})):
+                if treat == "plus1" and oname != "default":
+                    continue
+                obs = _solve(c2, drivers.build_graph(c2), {"weight_type": "int", "elements_to_ignore": [list(e)], "optimization_options": dict(oo)})
+                tags["ignore"] += 1
+                judge(f"MinFlowDecompCycles(int, ignore={e}/{treat}, options={oname})", obs, o2, ignored=[e], gcase=c2)
         if len(viol) > 4:
             return _ret(viol, nt, tags)
 
